@@ -150,12 +150,3 @@ Fixpoint tbl_lookup (k : bytes) (t : list (bytes * parsed_url)) : parsed_url :=
 
 Definition table_lib (t : list (bytes * parsed_url)) : urllib :=
   mk_urllib (fun s => tbl_lookup s t) redial_token.
-
-(* does the table keep the contract assumed of net/url (Proofs/ProxyRelayProofs.v redial_preserves) on its own
-   entries: reported per case by Run/NameMatcherRun.v *)
-Definition table_roundtrip_ok (t : list (bytes * parsed_url)) : bool :=
-  forallb (fun kv : bytes * parsed_url =>
-             match snd kv, tbl_lookup (redial_token (fst kv) []) t with
-             | Parsed sch h, Parsed sch' h' => beq sch' sch && beq h' h
-             | _, _ => true
-             end) t.
